@@ -100,7 +100,18 @@ def find_fn(src, name, impl=None):
     if not m:
         raise Fail("fn %s not found" % name)
     start = region[0] + m.start()
-    b = s.index("{", start)
+    # the body starts at the first `{` AFTER the parameter list (a parameter may be a struct pattern with braces)
+    i = region[0] + m.end() - 1
+    depth = 0
+    while i < len(s):
+        if s[i] == "(":
+            depth += 1
+        elif s[i] == ")":
+            depth -= 1
+            if depth == 0:
+                break
+        i += 1
+    b = s.index("{", i)
     e = match_brace(s, b)
     return s[start:b], s[b:e + 1]
 
